@@ -281,8 +281,50 @@ def check_generate(script, n):
     return out
 
 
+def big_script(n, style):
+    """Child streams for populations far larger than the enumerated ones."""
+    pairs = []
+    k = 0
+    while len(pairs) < n + 8:
+        if style == "near":        # distinct designs 1e-7 apart (far more than the 1e-10 of the rule)
+            a, b = (0.5 + 1e-7 * k, 0.25), (0.5 + 1e-7 * (k + 1), 0.25)
+        elif style == "repeats":   # every third child repeats an earlier one exactly
+            a, b = (0.01 * (k // 3), 1.0), (0.01 * (k + 1), -1.0 if k % 3 else 1.0)
+        else:                      # "scaled": large coordinates whose relative differences are tiny
+            a, b = (1e6 + 1e-3 * k, 2.0), (1e6 + 1e-3 * (k + 1), 2.0)
+        pairs.append((a, b))
+        k += 2
+    return pairs
+
+
 def _shard(shard, col: Collector):
     kind = shard[0]
+    if kind == "biggen":
+        for n in (31, 32, 33, 34, 40, 63, 64, 65, 70, 100, 129, 257):
+            for style in ("near", "repeats", "scaled"):
+                col.case()
+                col.nontrivial(("biggen", n, style))
+                for key, msg in check_generate(big_script(n, style), n):
+                    col.violation(key + ":large-population", "biggen", msg[:300], {"n": n, "style": style})
+        # long vectors: equality decided by ONE coordinate at every position around the sizes where fast paths would switch on
+        for d in (31, 32, 33, 64, 65, 100, 128, 129, 257, 1000, 1025):
+            base = tuple(float(i % 7) for i in range(d))
+            for pos in sorted(set([0, 1, d // 2, d - 2, d - 1] + [q for q in (7, 8, 15, 16, 31, 32, 63, 64, 99, 127, 128, 255, 256, 511, 512, 999, 1023) if q < d])):
+                for am in (2e-10, 1.0, -5e-11):
+                    b = list(base)
+                    b[pos] += am
+                    col.case()
+                    col.nontrivial(("longeq", d, pos, am))
+                    for key, msg in check_eq(base, tuple(b)):
+                        col.violation(key + ":long-vector", "longeq", "dimension %d, coordinate %d differs by %r: %s" % (d, pos, am, msg[:120]), {"d": d, "pos": pos, "am": am})
+        # big containers: membership / set / remove among 300 distinct designs
+        vs = [(float(i), float(i % 13)) for i in range(300)]
+        for probe in ((5.0, 5.0), (299.0, 0.0), (300.0, 1.0), (150.0, 7.0 + 2e-10)):
+            col.case()
+            for key, msg in check_containers(vs, probe):
+                col.violation(key + ":large-container", "cont", msg[:300], {"vs": vs, "probe": probe})
+        col.sample({"kind": "large populations in generate(), long vectors, big containers"}, 1)
+        return
     if kind == "eq":
         _, n, first = shard
         for rest in itertools.product(LAT, repeat=n - 1):
@@ -320,6 +362,27 @@ def _shard(shard, col: Collector):
             x, y = I(a), I(b)
             if not (x == y) or hash(x) != hash(y):
                 col.violation("C20:types:negative-zero", "types", "%r and %r: equal %r, hashes equal %r" % (a, b, x == y, hash(x) == hash(y)), {"base": a, "ta": "float", "tb": "float"})
+        # designs built one after the other from ONE re-used buffer (numpy array or list), as sampling loops do: each
+        # individual is the design the buffer held when it was created
+        for cls in CLASSES[:4]:
+            for kind_ in ("ndarray", "list"):
+                for v1, v2 in (((1.0, 2.0), (1.0, 3.0)), ((0.0, 0.0), (5.0, 0.0)), ((-1.0, 1.0), (-2.0, 1.0))):
+                    col.case()
+                    col.nontrivial(("buffer", cls, kind_, v1, v2))
+                    buf = np.array(v1, dtype=float) if kind_ == "ndarray" else list(v1)
+                    a = make_as(cls, buf) if kind_ == "list" else type(make_as(cls, [0.0]))(buf)
+                    buf[0], buf[1] = v2
+                    b = make_as(cls, buf) if kind_ == "list" else type(a)(buf)
+                    c = a.copy() if hasattr(a, "copy") and cls in ("IndividualNSGAII", "IndividualSwarm") else None
+                    ok = [float(x) for x in a.vector] == list(v1) and [float(x) for x in b.vector] == list(v2) and not (a == b) and len({a, b}) == 2
+                    if c is not None:
+                        buf2 = c.vector
+                        buf2[0] = 99.0
+                        ok = ok and [float(x) for x in a.vector] == list(v1)
+                    if not ok:
+                        col.violation("C20:buffer:design-follows-the-callers-buffer:%s" % kind_, "types",
+                                      "%s built from a %s holding %r, buffer then changed to %r and used for a second design: vectors %r / %r, equal %r" % (
+                                          cls, kind_, v1, v2, list(a.vector), list(b.vector), a == b), {"base": v1, "ta": cls, "tb": kind_})
         col.sample({"kind": "one point in different numeric types", "point": [1, -2], "types": list(conv)}, 1)
     elif kind == "ids":
         allv = list(itertools.product(LAT, repeat=2)) + [(v,) for v in LAT] + [(1.0, 0.0, -1.0), (1.0, 0.0, -2.0), (1.0 + 5e-11, 0.0, -1.0)]
@@ -412,6 +475,13 @@ def replay(sub, case):
         conv = {"int": int, "float": float, "np.float64": np.float64, "np.int64": np.int64, "np.float32": np.float32}
         a, b = I([conv[case["ta"]](v) for v in case["base"]]), I([conv[case["tb"]](v) for v in case["base"]])
         return [] if (a == b and hash(a) == hash(b)) else [("C20:types", "point %r as %s / %s" % (case["base"], case["ta"], case["tb"]))]
+    if sub == "biggen":
+        return check_generate(big_script(case["n"], case["style"]), case["n"])
+    if sub == "longeq":
+        base = tuple(float(i % 7) for i in range(case["d"]))
+        b = list(base)
+        b[case["pos"]] += case["am"]
+        return check_eq(base, tuple(b))
     if sub == "classes":
         return check_classes(t(case["a"]), t(case["b"]), case["ca"], case["cb"])
     if sub == "ids":
@@ -428,7 +498,7 @@ def run(tier, seed):
     for n in (1, 2, 3, 4):
         for first in LAT:
             shards.append(("eq", n, first))
-    shards += [("cont", 1), ("cont", 2), ("big",), ("moved",), ("types",), ("ids",), ("classes",)]
+    shards += [("cont", 1), ("cont", 2), ("big",), ("moved",), ("types",), ("ids",), ("classes",), ("biggen",)]
     lat2 = LAT2
     firsts = [(a, b) for a in lat2 for b in lat2]
     for npop in (2, 3, 4):
